@@ -93,6 +93,7 @@ func runC02(r *rt.Run) {
 	c02NearMiss(r)
 	c02NearParallel(r)
 	c02RootZigzags(r)
+	c02HoleTracks(r)
 	sharedRings(r, p, "shared-ring-object")
 	foreignRings(r, 4)
 	r.Sample(pairCase("intersects", p.polys[7].E, p.lines[100].E, ident, ""))
@@ -238,6 +239,81 @@ func c02NearParallel(r *rt.Run) {
 // 2^8 +- 2 and 2^16 +- 2 segments, under no index / the default options / a
 // forced r-tree and quadtree, against points on and next to them, lines across
 // them and rectangles around their vertices; both operand orders.
+// Shapes wholly inside a concave hole that bend around its reflex vertices
+// (their bounding-box centre is outside the hole), with 3 .. 49 positions:
+// a track through the hole's lobes and a thin polygon around that track.
+func holeTrack(hi, m int, asPoly bool) (a, b *exact.Shape) {
+	S := func(c ...int64) []exact.P {
+		var out []exact.P
+		for i := 0; i+1 < len(c); i += 2 {
+			out = append(out, exact.P{X: 16 * c[i], Y: 16 * c[i+1]})
+		}
+		return out
+	}
+	holes := [][]exact.P{
+		S(8, 8, 40, 48, 72, 8, 40, 72, 8, 8),
+		S(10, 10, 70, 10, 70, 70, 50, 70, 50, 30, 30, 30, 30, 70, 10, 70, 10, 10),
+		S(10, 10, 70, 10, 70, 30, 30, 30, 30, 70, 10, 70, 10, 10),
+	}
+	tracks := [][]exact.P{S(16, 20, 40, 60, 64, 20), S(20, 60, 20, 20, 60, 20, 60, 60), S(20, 60, 20, 20, 60, 20)}
+	a = &exact.Shape{Kind: exact.KPoly, Ext: S(0, 0, 80, 0, 80, 80, 0, 80, 0, 0), Holes: [][]exact.P{holes[hi]}}
+	var line []exact.P
+	t := tracks[hi]
+	for i := 0; i+1 < len(t); i++ {
+		for k := 0; k < m; k++ {
+			line = append(line, exact.P{X: t[i].X + (t[i+1].X-t[i].X)*int64(k)/int64(m), Y: t[i].Y + (t[i+1].Y-t[i].Y)*int64(k)/int64(m)})
+		}
+	}
+	line = append(line, t[len(t)-1])
+	if !asPoly {
+		return a, &exact.Shape{Kind: exact.KLine, Line: line}
+	}
+	// there along the track, back along a copy shifted by (16, 16) half units
+	ring := append([]exact.P(nil), line...)
+	for i := len(line) - 1; i >= 0; i-- {
+		ring = append(ring, exact.P{X: line[i].X + 16, Y: line[i].Y + 16})
+	}
+	return a, &exact.Shape{Kind: exact.KPoly, Ext: append(ring, ring[0])}
+}
+
+func holeTrackEval(hi, m int, asPoly bool, cfg int) (bool, string, string) {
+	ae, be := holeTrack(hi, m, asPoly)
+	o := rootZigzagCfgs[cfg%len(rootZigzagCfgs)].o
+	ag, bg := geomOf(ae, ident, o), geomOf(be, ident, o)
+	want := exact.Intersects(ae, be)
+	ab, ba := libIntersects(ag, bg), libIntersects(bg, ag)
+	return ab != want || ba != want, fmt.Sprint(want), fmt.Sprintf("%v / swapped %v", ab, ba)
+}
+
+func c02HoleTracks(r *rt.Run) {
+	w := r.Worker()
+	n := 0
+	for hi := 0; hi < 3; hi++ {
+		for _, m := range []int{1, 2, 4, 5, 7, 8, 16} {
+			for _, asPoly := range []bool{false, true} {
+				for cfg := range rootZigzagCfgs {
+					n++
+					w.States++
+					w.Evals += 2
+					w.Nontriv++
+					if bad, exp, got := holeTrackEval(hi, m, asPoly, cfg); bad {
+						hi, m, asPoly, cfg := hi, m, asPoly, cfg
+						w.Fail("intersects-track-in-concave-hole", func() (rt.Case, string, string) {
+							p := 0.0
+							if asPoly {
+								p = 1
+							}
+							return rt.Case{Kind: "holetrack", Op: "intersects", Nums: []float64{float64(hi), float64(m), p, float64(cfg)}}, exp, got
+						})
+					}
+				}
+			}
+		}
+	}
+	r.Bounds["tracks_in_concave_holes"] = n
+	w.Flush()
+}
+
 func rootZigzag(n int) *exact.Shape {
 	ps := make([]exact.P, n+1)
 	for k := range ps {
@@ -338,6 +414,12 @@ func evalC02(c *rt.Case) (bool, string, string, error) {
 			return false, "", "", fmt.Errorf("malformed case")
 		}
 		got, want = nearParEval(ip(0), ip(2), ip(4), ip(6), ip(8))
+	case "holetrack":
+		if len(c.Nums) != 4 || c.Nums[0] < 0 || c.Nums[0] > 2 || c.Nums[1] < 1 || c.Nums[1] > 64 {
+			return false, "", "", fmt.Errorf("malformed case")
+		}
+		bad, exp, got := holeTrackEval(int(c.Nums[0]), int(c.Nums[1]), c.Nums[2] == 1, int(c.Nums[3]))
+		return bad, exp, got, nil
 	case "rootzigzag":
 		return evalRootZigzag(c)
 	case "shared-ring":
